@@ -420,6 +420,24 @@ fn relcwd_family() -> Vec<Program> {
             }
         }
     }
+    // a linker opened in one working directory and committed in another (the cache path is relative)
+    for keyed in [true, false] {
+        for pre in [vec![crate::exec::LINK_CHDIR], vec![3, crate::exec::LINK_CHDIR, 5]] {
+            let l = LinkSpec { key: if keyed { Some(0) } else { None }, blob: 0, target: 0, relative: false, algo: crate::blob::Algo::Sha256, oneshot: false, pre_reads: pre, declare: Declare::Exact, integ: IntegDecl::None, dotdot_via_symlink: false, vectored_reads: false };
+            let a = AddrRef { algo: crate::blob::Algo::Sha256, blob: 0 };
+            let mut steps = vec![Step { op: Op::Write(WriteSpec::simple(Some(1), 1)), fl: Fl::Sync }, Step { op: Op::LinkTo(l), fl: Fl::Sync }];
+            for _ in 0..2 {
+                if keyed {
+                    steps.push(Step { op: Op::Meta { key: 0 }, fl: Fl::Sync });
+                    steps.push(Step { op: Op::Read { key: 0 }, fl: Fl::Sync });
+                }
+                steps.push(Step { op: Op::ReadHash { addr: a }, fl: Fl::Sync });
+                steps.push(Step { op: Op::Read { key: 1 }, fl: Fl::Sync });
+                steps.push(Step { op: Op::Chdir { dir: 4 }, fl: Fl::Sync });
+            }
+            out.push(Program { keys: keys.clone(), blobs: blobs.clone(), steps });
+        }
+    }
     out
 }
 
